@@ -64,16 +64,11 @@ type Ledger struct {
 	// transactions of the generator claimed without owning it and that the
 	// chain nevertheless accepted (value created; reported by the oracle).
 	Forged map[common.Address]*big.Int
-	// LostAtCreation is issued-token value the model predicts to vanish because
-	// a contract was created at an address that already held it (the chain
-	// carries only the coin balance over to the new account object; known
-	// finding of C06). Allocated on first use.
-	LostAtCreation map[common.Address]*big.Int
-	// CreationDropsTokens switches that prediction on (off by default: tokens
-	// held by an address stay when a contract is created there). The C06 rig
-	// sets it after observing StateDB.CreateAccount on a scratch copy of the state.
-	CreationDropsTokens bool
-	FeesSum             *big.Int // Σ fees debited from payers = Σ credited to the collector
+	// TokensAtCreation: issued tokens that sat at an address when a contract was
+	// created there (token -> amount, accumulated until the user resets it to
+	// nil). Information only: the ledger keeps them where they are.
+	TokensAtCreation map[common.Address]*big.Int
+	FeesSum          *big.Int // Σ fees debited from payers = Σ credited to the collector
 	// Signers set by MultiSignAccountTx per supported type.
 	Signers map[types.SupportType]*types.SignersInfo
 
@@ -518,7 +513,7 @@ func (l *Ledger) applyItem(it *Item, r *types.Receipt, fee *big.Int, height uint
 			l.Contracts[it.NewAddr] = &ContractInfo{Kind: it.Create, Decimals: it.Decimals, Creator: it.From}
 			l.nonce[it.NewAddr] = 1
 			it.createdAt = it.NewAddr
-			l.dropTokensAtCreation(it.NewAddr) // see adversarial.go (no effect unless the address already held issued tokens)
+			l.noteTokensAtCreation(it.NewAddr) // see adversarial.go (a record only, balances untouched)
 		}
 	case !ok && !modelOK:
 		l.restore(snap)
